@@ -240,6 +240,8 @@ func init() {
 			if p.schedDet {
 				p.note("bound: one scheduling order per timing assignment (runnable thread with the lowest id first)")
 			}
+		case "rand-zero":
+			p.randZero = v != 0
 		case "lzw-sizes":
 			p.lzwSizes = v != 0
 		case "krandom-real":
